@@ -302,6 +302,28 @@ func (e *Exec) closeModel(c *chanState, by *thread) {
 		if !po.parked {
 			continue
 		}
+		// parked receivers are woken by the close itself, with (zero, false) on THIS channel: a
+		// parked select cannot later pick another case that became ready in the meantime
+		if po.isRecv && po.ch == c && len(c.buf) == 0 {
+			po.val, po.ok = nil, false
+			p.pending = nil
+			p.ready = true
+			continue
+		}
+		woken := false
+		for i, sc := range po.cases {
+			if sc.recv && sc.ch == c && len(c.buf) == 0 {
+				sc.val, sc.ok = nil, false
+				po.chosen = i
+				p.pending = nil
+				p.ready = true
+				woken = true
+				break
+			}
+		}
+		if woken {
+			continue
+		}
 		if po.isSend && po.ch == c {
 			po.closedUnder = true
 			p.pending = nil
